@@ -3,33 +3,46 @@
 Two layers.
 
 Model layer.  A generated model spec (omv/gen/models.py: nested groups, promotion chains, src_indices chains with
-repeats / negatives / slices, unit conversions, implicit components, feedback) is built with harness components
-(omv/gen/c11comps.py) that declare every sub-Jacobian in a randomly planned style and record the triplets they
-hand to OpenMDAO.  The same spec is built four times: with the default dictionary (matrix-free application)
-Jacobian and with `assembled_jac_type` dense / csc / csr, the assembling linear solver (DirectSolver or ScipyKrylov
-with assemble_jac=True, or the linear solver of a Newton solver) placed at the root, at every sub-group and
-implicit component, or both.  Every problem is driven through the same history - linearize at a random state,
-re-linearize 1-3 times at new states, switch to complex-step mode and linearize at a complex state, switch back
-and linearize again - and after every linearization `run_apply_linear('fwd'|'rev')` of the root, of every
-sub-group and of every component is compared for random seed vectors with
+repeats / negatives / slices, unit conversions, output scaling, implicit components, feedback) is built with harness
+components (omv/gen/c11comps.py) that declare every sub-Jacobian in a randomly planned style and record the
+triplets they hand to OpenMDAO.  The same spec is built four times: with the default dictionary (matrix-free
+application) Jacobian and with `assembled_jac_type` dense / csc / csr, the assembling linear solver (DirectSolver or
+ScipyKrylov with assemble_jac=True, or the linear solver of a Newton solver) placed at the root, at every sub-group
+and implicit component, or both.  No nonlinear solve is needed: every problem is driven through the same history of
+linearization points - the harness writes a random state into the outputs, `run_apply_nonlinear()` transfers the
+inputs, `run_linearize()`; then 1-3 re-linearizations at new states; with a Newton solver present (complex-capable
+linear vectors) a switch to complex-step mode with a complex state, and a switch back - and after every
+linearization `run_apply_linear('fwd'|'rev')` of the root, of every sub-group and of every component (seed vectors
+written by absolute name; internal inputs are pre-filled with garbage in fwd mode, as stale values are in real use)
+is compared with
 
   * D @ v and D.T @ w, D = dense reference of that system built in the harness by plain accumulation of the
     recorded triplets (D[r, c] += val, columns of connected inputs remapped through NumPy positions of the
-    connection's index chain and multiplied by the unit factor of the reference's own unit table), and
+    connection's index chain and multiplied by the unit factor of the reference's own unit table; explicit
+    components contribute -I), and
   * the result of the dictionary-Jacobian problem (differential oracle),
 
-and `todense()` of the real dr/do and dr/di matrices is compared with D.
+and `todense()` of the real dr/do and dr/di matrices is compared with D.  Reverse mode is not driven under complex
+step (OpenMDAO never runs it there: Newton solves forward).
 
 Matrix layer.  The real DenseMatrix / COOMatrix / CSCMatrix / CSRMatrix classes are driven directly with real
-Subjac objects built from random metadata (see `_matrix_case`).
+Subjac objects built from random metadata (dense, rows/cols with within- and across-subjac duplicates, diagonal,
+scipy coo/csr/csc, src_indices with repeats and negatives, factors; also duplicate-free sets that keep DenseMatrix
+on its plain-ndarray path) through `_build`, then update histories of length 1-5 (`Subjac.set_val`,
+`Subjac.set_dtype` on dtype changes as `Jacobian._pre_update` does, `_pre_update/_update_from_submat/_post_update`)
+with float <-> complex switches; after every update `todense()`, `_prod(v,'fwd')`, `_prod(w,'rev')` and a masked
+`_prod` are compared with D (values and dtype kind).
+
+Recorded findings (mechanism keys `complex-switch:*`, see `_make_spec`): three ways in which the dictionary
+application / a scipy coo partial fail loudly after the switch to complex.  They are exercised in a small share of
+the cases only, so that the dtype-switch histories of all other cases stay judgeable.
 """
-import copy
 import random
 
 import numpy as np
 
 from omv.core import fingerprint
-from omv.kit.gmon import exc_key
+from omv.kit.gmon import exc_key, exc_where
 from omv.kit.poison import poison
 
 PROPERTY = 'C11'
@@ -135,12 +148,35 @@ def _make_spec(seed):
     # the shared values first (`_dict_under_assembled`).  Each combination is kept in a small share of the cases
     # only ('known_share'), so that the dtype-switch histories of all other cases stay judgeable.
     cfg['known_share'] = crng.choice([None] * 21 + ['coo', 'rowcol', 'stale-views'])
-    if cfg['newton'] and cfg['known_share'] != 'coo':
+    if cfg['newton'] and cfg['known_share'] != 'coo' and not _coo_switch_ok():
         for ent in plan.values():
             for d in ent['pk'].values():
                 if d['style'] == 'coo':
                     d['style'] = crng.choice(['csr', 'csc'])
     return spec, plan, cfg
+
+
+_COO_OK = []
+
+
+def _coo_switch_ok():
+    """Workload probe (never a verdict): can a scipy-coo sub-Jacobian follow a dtype switch in this tree?  While it
+    cannot (recorded finding `complex-switch:scipy-coo-partial`), such partials are combined with dtype switches in
+    the 'coo' share of the cases only; a linearization that raises half way leaves nothing to judge."""
+    if not _COO_OK:
+        import scipy.sparse as sp
+        from openmdao.jacobians.subjac import Subjac, SUBJAC_META_DEFAULTS
+        try:
+            meta = dict(SUBJAC_META_DEFAULTS, shape=(2, 2), val=sp.coo_matrix(np.eye(2)))
+            cls = Subjac.get_subjac_class(meta)
+            sj = cls(('a', 'b'), cls._update_instance_meta(meta, None, ('a', 'b')), slice(0, 2), slice(0, 2), True,
+                     np.dtype(float))
+            sj.set_dtype(np.dtype(complex))
+            sj.set_dtype(np.dtype(float))
+            _COO_OK.append(True)
+        except Exception:
+            _COO_OK.append(False)
+    return _COO_OK[0]
 
 
 def _mk_solver(om, kind):
@@ -398,6 +434,7 @@ def _model_case(case, acc):
                 all_in = sorted(tb.in_size.items())
                 cplx_ok = bool(model._doutputs._alloc_complex)
                 res = results[fmt] = {}
+                tainted = False
                 for ph, what in enumerate(history):
                     cplx = what == 'complex'
                     if cplx and not cplx_ok:
@@ -431,14 +468,12 @@ def _model_case(case, acc):
                             continue
                         level = 'root' if path == '' else ('group' if isinstance(s, om.Group) else 'comp')
                         jac = s._assembled_jac if not isinstance(s, om.ExplicitComponent) else None
-                        drive = True
-                        known_rc = cplx and _dict_rowcol(om, s, comps)
-                        known_sv = cplx and _dict_under_assembled(om, s, comps, sysmap)
-                        if (known_rc or known_sv) and not (
-                                (cfg['known_share'] == 'rowcol' and known_rc and not known_sv) or
-                                (cfg['known_share'] == 'stale-views' and known_sv and not known_rc)):
-                            acc.count('avoided:known-dict-application-failure-under-complex')
-                            drive = False
+                        is_rc = _dict_rowcol(om, s, comps)
+                        is_sv = _dict_under_assembled(om, s, comps, sysmap)
+                        known_rc = cplx and is_rc
+                        # white-box confirmation of the recorded stale-view mechanism: a Subjac of a dictionary
+                        # Jacobian below `s` still holds REAL vector views although the vectors are complex now
+                        known_sv = cplx and is_sv and _stale_real_views(om, s, comps)
                         if jac is not None:
                             cls = type(jac._dr_do_mtx).__name__ if jac._dr_do_mtx is not None else \
                                 'drdi-only-' + type(jac._dr_di_mtx).__name__
@@ -481,23 +516,53 @@ def _model_case(case, acc):
                         nj = 2
                         if level == 'comp' and jac is None:
                             nj = 1 if (fmt == 'dict' or what in ('complex', 'back')) else 0
-                        for j in range(nj if drive else 0):
+                        if tainted and not cplx and (is_rc or is_sv):
+                            # a recorded failure interrupted such an application in the complex phase of this problem:
+                            # the Subjac objects below kept their complex views, what follows proves nothing new
+                            acc.count('avoided:dict-application-after-recorded-failure')
+                            nj = 0
+                        for j in range(nj):
                             vo, vi, vr = seeds[j]
                             # reverse mode never runs under complex step (Newton solves forward): fwd only there
                             for mode in (('fwd',) if cplx else ('fwd', 'rev')):
                                 try:
                                     got = _drive(s, mode, ref, vo, vi, vr)
                                 except Exception as e:
-                                    tn = type(e).__name__
-                                    if known_rc and tn == 'TypeError' and 'Cannot cast array data' in str(e):
-                                        tag = 'complex-switch:dict-apply-of-rowcol-partial'
-                                    elif known_sv and tn == 'UFuncTypeError':
-                                        tag = 'complex-switch:dict-apply-below-assembled-ancestor'
+                                    tn, where = type(e).__name__, exc_where(e)
+                                    share = None
+                                    if where.startswith('subjac.py:_apply_'):
+                                        if known_rc and tn == 'TypeError' and 'Cannot cast array data' in str(e):
+                                            share, tag = 'rowcol', 'complex-switch:dict-apply-of-rowcol-partial'
+                                        elif known_sv and tn == 'UFuncTypeError' and "ufunc 'add' output" in str(e):
+                                            share, tag = 'stale-views', \
+                                                'complex-switch:dict-apply-below-assembled-ancestor'
+                                    if share is None:
+                                        raise _ApplyError(exc_key(K('apply', cls, mode, what, level, ()), e),
+                                                          '%s: %s' % (tn, str(e)[:200]))
+                                    # recorded finding (the matvec / scaling contexts are exception safe, so the
+                                    # problem stays usable): reported in its share of the cases, elsewhere the
+                                    # system is only left out of the complex phase
+                                    tainted = True
+                                    if cfg['known_share'] == share:
+                                        bad.append((exc_key(tag, e), '%s: %s [fmt=%s placement=%s]' %
+                                                    (tn, str(e)[:200], fmt, cfg['placement'])))
                                     else:
-                                        tag = K('apply', cls, mode, what, level, ())
-                                    raise _ApplyError(exc_key(tag, e), '%s: %s' % (tn, str(e)[:200]))
+                                        acc.count('avoided:' + tag)
+                                    continue
                                 exp, nv = _expected(mode, ref, vo, vi, vr)
                                 tol = RTOL * nD * nv + 1e-300
+                                if known_sv and not np.max(np.abs(got - exp), initial=0.0) <= tol and \
+                                        np.max(np.abs(got.real - exp.real), initial=0.0) <= tol:
+                                    # same recorded mechanism, silent form: value real + views real => the product
+                                    # is formed from the real parts only (imaginary part of the result is lost)
+                                    tainted = True
+                                    tag = 'complex-switch:dict-apply-below-assembled-ancestor:imaginary-part-lost'
+                                    if cfg['known_share'] == 'stale-views':
+                                        bad.append((tag, '%s %s fwd: imaginary part of the product differs from D v '
+                                                    '[fmt=%s placement=%s]' % (path, cls, fmt, cfg['placement'])))
+                                    else:
+                                        acc.count('avoided:' + tag)
+                                    continue
                                 res[(ph, path, mode, j)] = got
                                 tols[(ph, path, mode, j)] = (tol, what, level, frozenset(feats))
                                 acc.count('cell:%s/%s' % (cls, mode))
@@ -599,6 +664,22 @@ def _dict_rowcol(om, s, comps):
     return False
 
 
+def _stale_real_views(om, s, comps):
+    if not isinstance(s, om.ExplicitComponent) and s._assembled_jac is not None:
+        return False
+    if s.pathname in comps:
+        jac = getattr(s, '_jacobian', None)
+        subjacs = getattr(jac, '_subjacs', None) or {}
+        for sj in subjacs.values():
+            for v in (getattr(sj, '_in_view', None), getattr(sj, '_out_view', None), getattr(sj, '_res_view', None)):
+                if v is not None and v.dtype.kind == 'f':
+                    return True
+        return False
+    if isinstance(s, om.Group):
+        return any(_stale_real_views(om, sub, comps) for sub in s._subsystems_myproc)
+    return False
+
+
 def _dict_under_assembled(om, s, comps, sysmap):
     """True if apply_linear of `s` runs the dictionary Jacobian of a component whose sub-Jacobian metadata is
     shared with the assembled Jacobian of an ancestor (that one switches the dtype of the shared values first,
@@ -678,7 +759,8 @@ def _gen_matrix_case(seed):
             n = nsrc
         if kind == 'drdo' and rng.random() < 0.4:
             sj['factor'] = rng.choice([1000.0, 0.3048, 0.001, 60.0, 2.5])
-        styles = ['dense', 'rowcol', 'rowcol', 'csr', 'csc'] + ([] if has_cplx else ['coo', 'coo_dup'])
+        styles = ['dense', 'rowcol', 'rowcol', 'csr', 'csc'] + \
+            ([] if (has_cplx and not _coo_switch_ok()) else ['coo', 'coo_dup'])
         if m == n:
             styles.append('diag')
         st = rng.choice(styles)
